@@ -16,14 +16,15 @@ let parse_doc (text : string) : doc =
   let units () =
     match next () with
     | "L" -> let n = name (next ()) in let k = num () in ULocal (n, many k (fun () -> name (next ())))
-    | "I" -> let n = name (next ()) in let u = name (next ()) in let r = name (next ()) in UImp (n, u, r)
+    | "I" -> let n = name (next ()) in let sid = nat_of_int (num ()) in
+      let u = name (next ()) in let r = name (next ()) in UImp (n, sid, u, r)
     | t -> failwith ("units? " ^ t) in
   let rec comp () =
     (match next () with "C" -> () | t -> failwith ("comp? " ^ t));
     let n = name (next ()) in
     let imp = match next () with
       | "-" -> None
-      | "i" -> let u = name (next ()) in let r = name (next ()) in Some (u, r)
+      | "i" -> let sid = nat_of_int (num ()) in let u = name (next ()) in let r = name (next ()) in Some ((sid, u), r)
       | t -> failwith ("imp? " ^ t) in
     let ku = num () in
     let used = many ku (fun () -> name (next ())) in
@@ -48,7 +49,7 @@ let parse_doc (text : string) : doc =
 
 (* ---- printing *)
 let rule_name = function
-  | R_MISSING_FILE -> "MISSING_FILE" | R_NULL_MODEL -> "NULL_MODEL" | R_UNSPECIFIED -> "UNSPECIFIED"
+  | R_MISSING_FILE -> "MISSING_FILE" | R_NULL_MODEL -> "NULL_MODEL" | R_UNDEFINED -> "UNDEFINED"
   | R_ERROR_IMPORTING_UNITS -> "ERROR_IMPORTING_UNITS" | R_CYCLE -> "CYCLE" | R_MISSING_UNITS -> "MISSING_UNITS"
   | R_MISSING_COMPONENT -> "MISSING_COMPONENT" | R_UNRESOLVED_IMPORTS -> "UNRESOLVED_IMPORTS"
   | R_UNDEFINED_MODEL -> "UNDEFINED_MODEL"
